@@ -31,6 +31,8 @@ pub struct PatInfo {
     pub used: Vec<(char, usize)>,
     pub multibyte_literal: bool,
     pub quoted_literal: bool,
+    /// a symbol run of the other type used as literal text
+    pub other_type_literal: bool,
 }
 
 #[derive(Clone, Copy, Debug)]
@@ -39,6 +41,75 @@ pub struct ValueFacts {
     pub year: i64,
     pub offset: i32,
 }
+
+/// Patterns people actually write (ISO-like, compact "key" forms, regional forms, log/mail forms).  A fast path or a
+/// special case keyed on one exact pattern string is reached only by that string, so the whole corpus is run against
+/// every value stratum.  (pattern, type it is written for, has a year field directly followed by digits — not
+/// delimiter-terminated, so outside C12 —, unambiguous in text otherwise).
+pub const COMMON_PATTERNS: [(&str, Kind, bool, bool); 62] = [
+    ("yyyy-MM-dd HH:mm:ss", Kind::DateTime, false, true),
+    ("yyyy/MM/dd HH:mm:ss", Kind::DateTime, false, true),
+    ("yyyy-MM-ddTHH:mm:ss.nnnnnxxxxx", Kind::DateTime, false, true),
+    ("d.M.yyyy H:m:s", Kind::DateTime, false, true),
+    ("MMMM d, yyyy h:mm a", Kind::DateTime, false, true),
+    ("yyyyMMddHHmmss", Kind::DateTime, true, true),
+    ("yyyyMMdd'T'HHmmss", Kind::DateTime, true, true),
+    ("yyyyMMddTHHmmssxxxx", Kind::DateTime, true, true),
+    ("yyyy-MM-dd'T'HH:mm:ssxxx", Kind::DateTime, false, true),
+    ("yyyy-MM-ddTHH:mm:ssXXX", Kind::DateTime, false, true),
+    ("yyyy-MM-ddTHH:mm:ss.nnnXXX", Kind::DateTime, false, true),
+    ("dd/MM/yyyy HH:mm", Kind::DateTime, false, true),
+    ("MM/dd/yyyy hh:mm:ss a", Kind::DateTime, false, true),
+    ("dd.MM.yyyy HH:mm:ss", Kind::DateTime, false, true),
+    ("eee, dd MMM yyyy HH:mm:ss xxxx", Kind::DateTime, false, true),
+    ("yyyy-MM-dd HH:mm:ss.nnn", Kind::DateTime, false, true),
+    ("yyyy-MM-dd HH:mm:ss.nnnn", Kind::DateTime, false, true),
+    ("yyyy-DDD'T'HH:mm", Kind::DateTime, false, true),
+    ("yyyyMMddHHmmssnnn", Kind::DateTime, true, true),
+    ("yyyy-MM-dd kk:mm", Kind::DateTime, false, true),
+    ("kk:mm e D w", Kind::DateTime, false, false),
+    ("yyyy-MM-dd HH:mm:ss eeee", Kind::DateTime, false, true),
+    ("dd MMM yyyy, h:mm a", Kind::DateTime, false, true),
+    ("yyyy-'W'ww-e", Kind::Date, false, false),
+    ("yyyy-'W'ww", Kind::Date, false, false),
+    ("w e", Kind::Date, false, false),
+    ("yyyy 'Q'q", Kind::Date, false, false),
+    ("yyyy-MM-dd", Kind::Date, false, true),
+    ("yyyyMMdd", Kind::Date, true, true),
+    ("yyMMdd", Kind::Date, false, false),
+    ("yyyy/MM/dd", Kind::Date, false, true),
+    ("dd.MM.yyyy", Kind::Date, false, true),
+    ("d.M.yyyy", Kind::Date, false, true),
+    ("MM/dd/yyyy", Kind::Date, false, true),
+    ("M/d/yyyy", Kind::Date, false, true),
+    ("d MMM yyyy", Kind::Date, false, true),
+    ("MMMM d, yyyy", Kind::Date, false, true),
+    ("eeee, d MMMM yyyy", Kind::Date, false, true),
+    ("yyyy-DDD", Kind::Date, false, true),
+    ("yyyyDDD", Kind::Date, true, true),
+    ("yyyy-MM", Kind::Date, false, true),
+    ("yyyyMM", Kind::Date, true, true),
+    ("dd-MMM-yyyy", Kind::Date, false, true),
+    ("yyyy.MM.dd G", Kind::Date, false, true),
+    ("MMdd", Kind::Date, false, true),
+    ("G", Kind::Date, false, false),
+    ("GGGG", Kind::Date, false, false),
+    ("HH:mm:ss", Kind::Time, false, true),
+    ("HHmmss", Kind::Time, false, true),
+    ("HH:mm", Kind::Time, false, true),
+    ("HHmm", Kind::Time, false, true),
+    ("h:mm a", Kind::Time, false, true),
+    ("hh:mm:ss a", Kind::Time, false, true),
+    ("HH:mm:ss.nnn", Kind::Time, false, true),
+    ("HH:mm:ss.nnnnn", Kind::Time, false, true),
+    ("HHmmssnnn", Kind::Time, false, true),
+    ("h:mm:ss a xxx", Kind::Time, false, true),
+    ("HH:mm:ssxxx", Kind::Time, false, true),
+    ("kk:mm", Kind::Time, false, true),
+    ("G HH", Kind::DateTime, false, false),
+    ("HH:mm G", Kind::DateTime, false, false),
+    ("HH:mm:ss xxxxx", Kind::DateTime, false, false),
+];
 
 struct Field {
     text: String,
@@ -94,6 +165,10 @@ const DELIMS: [&str; 46] = [
     // starts / ends with white space, and quoted text that continues an English name ("Sun" + "day", "Sep" + "tember")
     " ' at '", " 'T'", "' 'T", "'  '", "- ' '", "' ' ", "'day'", "'nesday'", "'urday'", "'uary'", "'tember'", "'ober'", "'ust'", "'M'", "'.m.'", "'night'", "'st'", "'th'",
 ];
+/// Symbol runs of the *other* type: a Date copies time symbols literally and a Time copies date symbols literally,
+/// so in a pattern of that type they are plain literal text (a DateTime pattern re-used for a Date, say).
+const TIME_RUNS_AS_DATE_LITERALS: [&str; 14] = ["HH", "mm", "ss", "h", "a", "T HH:mm", "nnn", "XXX", "k", "b", "K", "x", " HH:mm:ss", "HHmmss"];
+const DATE_RUNS_AS_TIME_LITERALS: [&str; 12] = ["yyyy", "MM", "dd", "G", "q", "w", "D", "e", "yyyy-MM-dd ", "M", "d", "yyyyMMdd"];
 const ZONE_SAFE_DELIMS: [&str; 14] = [" ", "/", ".", ",", "T", "_", "é", "'at'", "''", "\n", "\t", "½", "②", "|"];
 
 /// Generates one pattern for a value with the given year/offset.
@@ -241,7 +316,17 @@ pub fn gen(rng: &mut Rng, kind: Kind, v: &ValueFacts) -> PatInfo {
         let next_same_letter = !last && fields[k + 1].text.chars().next() == f.text.chars().next();
         let must = (f.needs_delim && !last) || next_same_letter;
         if must || (!last && rng.chance(2, 3)) || (last && rng.chance(1, 5)) {
-            let d = if f.zone { *rng.pick(&ZONE_SAFE_DELIMS) } else { *rng.pick(&DELIMS) };
+            let d = if kind == Kind::Date && rng.chance(1, 6) {
+                info.other_type_literal = true;
+                *rng.pick(&TIME_RUNS_AS_DATE_LITERALS)
+            } else if kind == Kind::Time && rng.chance(1, 6) {
+                info.other_type_literal = true;
+                *rng.pick(&DATE_RUNS_AS_TIME_LITERALS)
+            } else if f.zone {
+                *rng.pick(&ZONE_SAFE_DELIMS)
+            } else {
+                *rng.pick(&DELIMS)
+            };
             // a literal run must not merge with the neighbouring symbol run of the same character
             note_delim(&mut info, d);
             p.push_str(d);
